@@ -93,7 +93,7 @@ func baseStream(r *rand.Rand, role, typ, ns, sa string) streamSpec {
 func perturb(r *rand.Rand, s *streamSpec) {
 	ns := s.claimedNamespace()
 	for i, n := 0, r.Intn(3); i < n; i++ {
-		switch r.Intn(12) {
+		switch r.Intn(13) {
 		case 0: // several identities: an unrelated one first
 			s.Cred.Identities = append([]string{spiffe("cluster.local", pick(r, namespaces), pick(r, serviceAccounts))}, s.Cred.Identities...)
 		case 1: // several identities: a hostile one first
@@ -115,7 +115,12 @@ func perturb(r *rand.Rand, s *streamSpec) {
 		case 9:
 			s.PKP = pick(r, []string{"cryptomb", "qat"})
 		case 10:
-			s.Domain = "cluster.local" // nothing claimed through the domain
+			s.Domain = "localdomain" // a domain without a namespace label
+		case 12: // no namespace claimed at all (and sometimes no account either)
+			s.MetaNS, s.Domain = nil, "localdomain"
+			if r.Intn(2) == 0 {
+				s.MetaSA = ""
+			}
 		case 11:
 			if r.Intn(4) == 0 {
 				s.ClusterID = pick(r, []string{"", "remote-cluster"})
@@ -248,8 +253,8 @@ type plan struct {
 	Events  []event      `json:"events"`
 	Order1  []int        `json:"order1"`
 	Order2  []int        `json:"order2"`
-	Warm2   bool         `json:"warm2"`  // second run starts on the cache left by the first
-	Push1   bool         `json:"push1"`  // forced push after connect in run 1 (gives connections a push time, so requests fill the cache)
+	Warm2   bool         `json:"warm2"` // second run starts on the cache left by the first
+	Push1   bool         `json:"push1"` // forced push after connect in run 1 (gives connections a push time, so requests fill the cache)
 	forms   map[string]string
 }
 
